@@ -28,6 +28,52 @@ def classes(tag=None):
     return types, out
 
 
+# ---------------------------------------------------------------- isolated mini trees
+_minis = {}
+
+
+def mini(struct_names):
+    """A spec tree holding ONLY the named core structs and the types they reach (plus the packet enums the generator
+    insists on), in their core order.  Generating a class in isolation exposes order effects inside the generator
+    (caches, scopes) that the big trees hide: there some other class has usually touched the same types first.
+    -> (xml_dir, types, classes)"""
+    import atexit, shutil, tempfile
+    import xml.etree.ElementTree as ET
+    key = tuple(struct_names)
+    if key in _minis:
+        return _minis[key]
+    types, cls = schema()
+    by = {c["name"]: c for c in cls}
+    need = {}
+    for n in struct_names:
+        need[n] = True
+        for t in closure(types, by[n]["instrs"]):
+            need[t] = True
+    out = tempfile.mkdtemp(prefix="vsx-mini-")
+    atexit.register(shutil.rmtree, out, True)
+    for rel in (".", "map", "net", "net/client", "net/server", "pub", "pub/server"):
+        os.makedirs(os.path.join(out, rel), exist_ok=True)
+        open(os.path.join(out, rel, "protocol.xml"), "w").write("<protocol></protocol>\n")
+    body = []
+    have_packet_enums = set()
+    for root_, _, files in sorted(os.walk(CORE)):
+        if "protocol.xml" not in files:
+            continue
+        doc = ET.parse(os.path.join(root_, "protocol.xml")).getroot()
+        for el in doc:
+            nm = el.get("name")
+            if el.tag == "enum" and nm in ("PacketFamily", "PacketAction"):
+                if nm not in have_packet_enums:
+                    have_packet_enums.add(nm)
+                    body.insert(0, ET.tostring(el, encoding="unicode"))
+            elif el.tag in ("enum", "struct") and nm in need:
+                body.append(ET.tostring(el, encoding="unicode"))
+    open(os.path.join(out, "net", "protocol.xml"), "w").write("<protocol>\n" + "\n".join(body) + "\n</protocol>\n")
+    mtypes, mcls = Tree(out).schema()
+    _minis[key] = (out, mtypes, [c for c in mcls if c["name"].split(".")[0] in struct_names])
+    return _minis[key]
+
+
 # ---------------------------------------------------------------- generated pair corpus
 from . import paircorpus
 _pairs = {}
